@@ -158,6 +158,21 @@ def rule_js_state(check, only_files=None):
 
     def state(c):
         n = 0
+        # the cache of rewritten maps holds the map of *every* file rewritten so far (files stay loaded for
+        # the life of the process): its container is unbounded - a Map, a plain object - never an evicting
+        # cache (seed C11-rewritten-maps-in-bounded-lru: an lru-cache of 1000 entries, the maps of the
+        # earliest files are gone once more than 1000 files were rewritten and their frames stay untranslated)
+        rname = jsast.cache_roles(sm)["rewritten"]
+        for stmt in (sm.body if only_files else []):  # a C11 clause: C16 (same rule, all files) is about rewriting, not lookups
+            for d in (stmt.get("declarations") or []) if stmt.get("type") == "VariableDeclaration" else []:
+                if d["id"].get("type") == "Identifier" and jsast.ident_name(d["id"]) == rname:
+                    init = d.get("init") or {}
+                    callee = jsast.ident_name(init.get("callee")) if init.get("type") == "NewExpression" and (init.get("callee") or {}).get("type") == "Identifier" else None
+                    local = {jsast.ident_name(x["id"]) for s2 in sm.body if s2.get("type") == "VariableDeclaration" for x in s2["declarations"] if x["id"].get("type") == "Identifier"}
+                    unbounded = (callee == "Map" and "Map" not in local and not (init.get("arguments") or [])) or init.get("type") == "ObjectExpression"
+                    if init.get("type") == "CallExpression" and (jsast.member_chain(init.get("callee")) or []) == ["Object", "create"]:
+                        unbounded = True
+                    c.expect(unbounded, R5, "%s/rewritten-cache-unbounded" % R5, sm.loc(d), "%s is an unbounded container (%s)" % (rname, "new Map()" if callee == "Map" else init.get("type")), "%s is created as %s: a bounded / evicting container drops the maps of files that are still loaded, their call sites are reported untranslated" % (rname, ("new %s(..)" % callee) if callee else init.get("type")))
         for jf in (main, sm, st):
             if only_files and jf.name not in only_files:
                 continue
